@@ -85,12 +85,13 @@ Section Spec.
   (* missing / unknown client (every way the client lookup can fail: not registered, or the
      storage call itself fails) / non-matching redirect URI: no URI the request mentions
      (plain parameter, request object) matches anything registered *)
-  Definition must_page (q : areq) : bool :=
+  Definition must_page_with (lp : string -> option (string * string)) (q : areq) : bool :=
     match q_fault q with AF_GetClient _ => true | _ => false end ||
     match find_client cs (q_client q) with
     | None => true
-    | Some c => forallb (fun u => String.eqb u "" || negb (matching c u)) (candidates q)
+    | Some c => forallb (fun u => String.eqb u "" || negb (matches glob lp c u)) (candidates q)
     end.
+  Definition must_page := must_page_with (fun u => u_truth (info u)).
 
   Definition login_ok (q : areq) (x : out) : bool :=
     match x with
